@@ -658,9 +658,13 @@ func writeEvidence(prop, tier string, seed uint64, t *WorkerOut, states map[uint
 		"wall_s":      wall,
 		"violations":  unlisted,
 	}
-	os.MkdirAll(filepath.Join(verifDir, "evidence"), 0o755)
+	evDir := filepath.Join(verifDir, "evidence")
+	if v := os.Getenv("VERIF_EVIDENCE"); v != "" {
+		evDir = v // runs against seeded changes must not overwrite the evidence of the real tree
+	}
+	os.MkdirAll(evDir, 0o755)
 	b, _ := json.MarshalIndent(ev, "", " ")
-	os.WriteFile(filepath.Join(verifDir, "evidence", prop+".json"), b, 0o644)
+	os.WriteFile(filepath.Join(evDir, prop+".json"), b, 0o644)
 }
 
 func execMode(prop, tier, mode string, cfg sim.Config, ops []sim.Op) []sim.Violation {
